@@ -298,7 +298,9 @@ def dedupe_histories(recs, complete=lambda e: e.get("status", 1) != 0 or e.get("
         if k in seen or not h:
             continue
         seen.add(k)
-        yield {"hist": h}
+        out = dict(r)
+        out["hist"] = h
+        yield out
 
 
 def write_cases(recs, path):
